@@ -68,6 +68,23 @@ func bytesR(b []byte, err error) Sx {
 	return OkV(B(b))
 }
 
+// an exchange built by hand may have nil header maps: a serializer must not fill them in (a write to the shared input)
+func nilEmptyMaps(e *sxg.Exchange) {
+	if len(e.ResponseHeaders) == 0 {
+		e.ResponseHeaders = nil
+	}
+	if len(e.RequestHeaders) == 0 {
+		e.RequestHeaders = nil
+	}
+}
+
+func inputKept(e *sxg.Exchange, r Sx) Sx {
+	if (len(e.ResponseHeaders) == 0 && e.ResponseHeaders != nil) || (len(e.RequestHeaders) == 0 && e.RequestHeaders != nil) {
+		return L(Sym("input_changed"))
+	}
+	return r
+}
+
 // conc_shared kind (artifact) n seed : ONE parsed object shared by all goroutines
 func opConcShared(a []Sx) Sx {
 	kind, art := string(a[0].B), a[1].L
@@ -82,18 +99,20 @@ func opConcShared(a []Sx) Sx {
 		})
 	case "sxg":
 		e := exchangeOf(art[0])
-		return runMany(n, seed, func() Sx {
+		nilEmptyMaps(e)
+		return inputKept(e, runMany(n, seed, func() Sx {
 			var buf bytes.Buffer
 			err := e.Write(&buf)
 			return bytesR(buf.Bytes(), err)
-		})
+		}))
 	case "sxg_headers":
 		e := exchangeOf(art[0])
-		return runMany(n, seed, func() Sx {
+		nilEmptyMaps(e)
+		return inputKept(e, runMany(n, seed, func() Sx {
 			var buf bytes.Buffer
 			err := e.DumpExchangeHeaders(&buf)
 			return bytesR(buf.Bytes(), err)
-		})
+		}))
 	case "sxg_message":
 		e := exchangeOf(art[0])
 		s := &sxg.Signer{Date: time.Unix(art[3].I64(), 0), Expires: time.Unix(art[4].I64(), 0),
